@@ -71,6 +71,13 @@ type c19Stats struct {
 	entries, maxDepth, shardedLevels int
 }
 
+func countEntries(de testutil.DirEntry, stt *c19Stats) {
+	stt.entries++
+	for _, ch := range de.Children {
+		countEntries(ch, stt)
+	}
+}
+
 // repathEntry returns a deep copy of de with the path prefix from replaced by to, at every level.
 func repathEntry(de testutil.DirEntry, from, to string) testutil.DirEntry {
 	out := de
@@ -512,6 +519,34 @@ func TestC19(t *testing.T) {
 						okCmp := tt.Run(c.ID+"/Compare", func(t *testing.T) { testutil.CompareDirEntries(t, de, rb) })
 						if !okCmp {
 							c.Violation("C19|"+gg.Name+"|compare-failed", "CompareDirEntries(generated, read-back) fails for %s(size %d)", gg.Name, gg.Size)
+						}
+					}
+				}
+			}
+			// the read-back helper on a store from which one nested shard block has gone: told to expect the
+			// full DAG it has to fail its test, not hand back a smaller directory as if that were all
+			if rn, _ := w.Node(de.Root); sharded && gg.Var%2 == 0 && stt.entries < 3000 && rn != nil && rn.FS != nil && rn.FS.GetType() == 5 {
+				if _, shards, _, err := w.HamtWalk(de.Root); err == nil && len(shards) > 1 {
+					gone := shards[1+gg.Var%(len(shards)-1)]
+					st.Absent = map[string]bool{gone.KeyString(): true}
+					scratch := &testing.T{}
+					done := make(chan struct{})
+					finished := false
+					var rb testutil.DirEntry
+					go func() {
+						defer close(done)
+						defer func() { recover() }()
+						rb = testutil.ToDirEntryFrom(scratch, *ls, de.Root, de.Path, true)
+						finished = true
+					}()
+					<-done
+					st.Absent = nil
+					c.Count("readbacks_with_a_missing_shard", 1)
+					if finished && !scratch.Failed() {
+						stt3 := &c19Stats{}
+						countEntries(rb, stt3)
+						if stt3.entries < stt.entries {
+							c.Violation("C19|ToDirEntry|partial-readback", "%s: with shard block %s missing, ToDirEntryFrom(expectFull=true) did not fail and returned %d of %d entries", gg.Name, gone, stt3.entries, stt.entries)
 						}
 					}
 				}
